@@ -355,6 +355,19 @@ def c06(tier):
         if o["runs"][0]["check"] == "ok":
             accepted_bad += 1
             rep.violation("illtyped:" + s, {"src": s, "mutation": what}, "the checker accepted an ill-typed module (%s)" % what)
+    # typing rules that involve several modules (nominal types, visibility, opaque types): projects that must / must not build
+    xm = cross_module_projects()
+    xo = vlib.run_harness("blueprint_ops", stdin_lines=[{"id": i, "dir": os.path.join(vlib.WORK, "bp", "c06_%d_%d" % (os.getpid(), i)), "src": "", "ops": [],
+                                                         "extra_files": files} for i, (what, ok, files) in enumerate(xm)], timeout=3600)
+    for (what, ok, files), o in zip(xm, xo):
+        built = o.get("build") == "ok"
+        if isinstance(o.get("build"), dict) and "panic" in o["build"]:
+            rep.violation("xmodule-panic:" + what, {"what": what, "files": files, "build": o["build"]}, "checking a project panicked (%s)" % what)
+        elif ok and not built:
+            raise vlib.ToolError("a well-typed multi-module control is rejected (%s): %s" % (what, json.dumps(o.get("build"))[:500]))
+        elif not ok and built:
+            accepted_bad += 1
+            rep.violation("xmodule:" + what, {"what": what, "files": files}, "the checker accepted an ill-typed project (%s)" % what)
     aborts = sum(1 for e in events if e["out"]["o"] == "fail")
     if aborts < 20:
         raise vlib.ToolError("C06 vacuity: only %d failing runs observed" % aborts)
@@ -409,6 +422,39 @@ def ill_typed_mutants(rng, n):
         # vary literals so that cases are distinct
         body = body.replace(" 1 ", " %d " % rng.randint(1, 9)) if i >= len(pool) else body
         out.append((T + "\n" + body, what))
+    return out
+
+
+def cross_module_projects():
+    """(description, must it build?, files)"""
+    V = "validator v {\n  mint(_r: Data, _p: ByteArray, _tx: Data) {\n    %s\n  }\n\n  else(_) {\n    fail\n  }\n}\n"
+    out = []
+    a = "pub type Item {\n  Item { n: Int }\n}\n\npub fn width(i: Item) -> Int {\n  i.n\n}\n\npub fn make(n: Int) -> Item {\n  Item { n }\n}\n"
+    b = "pub type Item {\n  Item { s: ByteArray }\n}\n\npub fn make(s: ByteArray) -> Item {\n  Item { s }\n}\n"
+    b_same_shape = "pub type Item {\n  Item { n: Int }\n}\n\npub fn make(n: Int) -> Item {\n  Item { n }\n}\n"
+    out.append(("two types of the same name, each used with its own module", True,
+                {"lib/shop/a.ak": a, "lib/shop/b.ak": b, "validators/v.ak": "use shop/a\nuse shop/b\n\n" + V % "a.width(a.make(1)) == 1 && b.make(#\"00\") == b.make(#\"00\")"}))
+    out.append(("a value of b.Item where a.Item is required", False,
+                {"lib/shop/a.ak": a, "lib/shop/b.ak": b, "validators/v.ak": "use shop/a\nuse shop/b\n\n" + V % "a.width(b.make(#\"00\")) == 1"}))
+    out.append(("a value of b.Item (same shape) where a.Item is required", False,
+                {"lib/shop/a.ak": a, "lib/shop/b.ak": b_same_shape, "validators/v.ak": "use shop/a\nuse shop/b\n\n" + V % "a.width(b.make(1)) == 1"}))
+    out.append(("comparing a.Item with b.Item", False,
+                {"lib/shop/a.ak": a, "lib/shop/b.ak": b_same_shape, "validators/v.ak": "use shop/a\nuse shop/b\n\n" + V % "a.make(1) == b.make(1)"}))
+    priv = "type Hidden {\n  Hidden(Int)\n}\n\nfn secret() -> Int {\n  1\n}\n\npub fn open() -> Int {\n  secret()\n}\n"
+    out.append(("a public function of another module", True, {"lib/m/p.ak": priv, "validators/v.ak": "use m/p\n\n" + V % "p.open() == 1"}))
+    out.append(("a private function of another module", False, {"lib/m/p.ak": priv, "validators/v.ak": "use m/p\n\n" + V % "p.secret() == 1"}))
+    out.append(("a private type of another module", False, {"lib/m/p.ak": priv, "validators/v.ak": "use m/p.{Hidden}\n\n" + V % "Hidden(1) == Hidden(1)"}))
+    opq = "pub opaque type Token {\n  Token(Int)\n}\n\npub fn mint_token(n: Int) -> Token {\n  Token(n)\n}\n\npub fn value(t: Token) -> Int {\n  let Token(n) = t\n  n\n}\n"
+    out.append(("an opaque type through its functions", True, {"lib/m/o.ak": opq, "validators/v.ak": "use m/o\n\n" + V % "o.value(o.mint_token(3)) == 3"}))
+    out.append(("constructing an opaque type outside its module", False, {"lib/m/o.ak": opq, "validators/v.ak": "use m/o.{Token}\n\n" + V % "o.value(Token(3)) == 3"}))
+    out.append(("destructuring an opaque type outside its module", False,
+                {"lib/m/o.ak": opq, "validators/v.ak": "use m/o.{Token}\n\n" + V % "{\n      let Token(n) = o.mint_token(3)\n      n == 3\n    }"}))
+    gen = "pub type Wrapper<a> {\n  Wrapper { inner: a }\n}\n\npub fn unwrap(w: Wrapper<a>) -> a {\n  w.inner\n}\n"
+    out.append(("a generic type of another module at the right instance", True, {"lib/m/g.ak": gen, "validators/v.ak": "use m/g.{Wrapper}\n\n" + V % "g.unwrap(Wrapper { inner: 1 }) == 1"}))
+    out.append(("a generic type of another module at the wrong instance", False,
+                {"lib/m/g.ak": gen, "validators/v.ak": "use m/g.{Wrapper}\n\n" + V % "g.unwrap(Wrapper { inner: #\"00\" }) == 1"}))
+    out.append(("an unknown module", False, {"validators/v.ak": "use m/nowhere\n\n" + V % "nowhere.f() == 1"}))
+    out.append(("an unknown name of a known module", False, {"lib/m/p.ak": priv, "validators/v.ak": "use m/p\n\n" + V % "p.nothing() == 1"}))
     return out
 
 
